@@ -939,6 +939,23 @@ def _set_mtimes(root, newest):
         os.utime(newest, (t + 100, t + 100))
 
 
+def _poison(x, depth=0):
+    """Edit a value a reader handed back, in place: a caller is free to do that, and it must never change what later reads
+    (or a later delta write on the same baseline) see."""
+    if depth > 6:
+        return
+    if isinstance(x, dict):
+        for v in list(x.values()):
+            _poison(v, depth + 1)
+        for k in list(x.keys())[:1]:
+            x[k] = "__edited_by_caller__"
+        x["__edited_by_caller__"] = depth
+    elif isinstance(x, list):
+        for v in x:
+            _poison(v, depth + 1)
+        x.append("__edited_by_caller__")
+
+
 def check_disk(case, rec=None):
     import logging
     logging.disable(logging.CRITICAL)
@@ -958,6 +975,10 @@ def _check_disk_codec(case, codec, rec):
     ea, eb = case["etags"]
     c1 = canon(p1)
     cp0, cp1 = canon(p0), c1
+    try:  # pristine JSON texts of both payloads (what the files hold), for the raw on-disk delta comparison
+        cp0_json, cp1_json = json.dumps(p0), json.dumps(p1)
+    except Exception:
+        cp0_json = cp1_json = None
     evals = 0
     labels = [f"scenario:{scen}", f"codec:{codec}"]
 
@@ -1077,6 +1098,7 @@ def _check_disk_codec(case, codec, rec):
                     outs.append("raised")
                     continue
                 outs.append(guarded(lambda: same_p1(got, who, strict)))
+                _poison(got)  # the next reader must not see the caller's edits
             evals += 1
             outs.append(guarded(lambda: load_ok("load_latest_snapshot", strict)))
             for o in outs:
@@ -1105,10 +1127,30 @@ def _check_disk_codec(case, codec, rec):
                 viol(f"full write returned ({os.path.basename(fpath)}, {wd0})", "writer-full-shape")
             if canon(p0) != cp0:
                 viol("write_snapshot_auto mutated the payload", "mutates-input")
+            if len(case["blobs"]) % 2 == 0:
+                # the usual incremental flow: read the baseline back, edit the returned object in place, then write a delta
+                try:
+                    a_back = read_snapshot(snap, etag_to=ea)
+                except Exception as e:
+                    viol(f"read_snapshot(root, etag_to=) of a freshly written full snapshot raised {type(e).__name__}: {e}", "read-raises")
+                if canon(a_back) != cp0:
+                    viol(f"full snapshot read back as {canon(a_back)[:300]} instead of P0", "full-readback")
+                _poison(a_back)
+                labels.append("baseline-read-then-edited")
             dpath, wrote_delta = write_snapshot_auto(snap, etag_from=ea, etag_to=eb, payload=p1, compression=codec, delta_mode=True)
             if canon(p1) != cp1:
                 viol("write_snapshot_auto mutated the payload", "mutates-input")
             labels.append("wrote_delta" if wrote_delta else "writer-fell-back-to-full")
+            if wrote_delta and codec == "none":
+                # what is ON DISK must be the delta from the baseline file's content to P1 (raw parse, no reader involved)
+                from clematis.engine.util.snapshot_delta import compute_delta
+                with open(dpath, "rb") as f:
+                    lines = f.read().split(b"\n")
+                disk_delta = json.loads(lines[1].decode("utf-8")) if len(lines) > 1 and lines[1].strip() else None
+                want_delta = compute_delta(json.loads(cp0_json), json.loads(cp1_json)) if cp0_json is not None else None
+                if want_delta is not None and canon(disk_delta) != canon(want_delta):
+                    viol(f"delta body on disk {canon(disk_delta)[:300]} is not the delta from the baseline file's payload to P1 "
+                         f"{canon(want_delta)[:300]}", "disk-delta-wrong")
             if wrote_delta and os.path.basename(dpath) != delta_name:
                 viol(f"delta written under {os.path.basename(dpath)}", "writer-delta-name")
             if scen == "present":
